@@ -235,7 +235,8 @@ def c08_front(ctx, acc):
     g_parse(ctx, acc, 'c08oct', 'MC_C08', cfg(['MaxLen = 1', 'Mode = "octal"', 'Slice = 1'], inv), PARSE_KINDS_TREE)
     g_parse(ctx, acc, 'c08cl', 'MC_C08', cfg(['MaxLen = 2', 'Mode = "clauses"', 'Slice = %d' % pick(ctx, 16, 1)], inv), PARSE_KINDS_TREE, timeout=3000)
     if not ctx.quick:
-        g_parse(ctx, acc, 'c08sim', 'MC_C08', cfg(['MaxLen = 4', 'Mode = "clauses"', 'Slice = 1'], inv), PARSE_KINDS_TREE,
+        # (random behaviours: without the emitter attached to the states of depth 1, which every behaviour revisits)
+        g_parse(ctx, acc, 'c08sim', 'MC_C08', cfg(['MaxLen = 4', 'Mode = "clauses"', 'Slice = 1'], [i for i in inv if i != 'EmitOdd']), PARSE_KINDS_TREE,
                 extra=['-simulate', 'num=7000', '-depth', '5', '-seed', str(ctx.seed)], workers=1, timeout=3000)
     t_parse(ctx, acc, 'c08t', ['--mode', 'perm', '--count', str(pick(ctx, 3000, 30000)), '--seed', str(ctx.seed)], PARSE_KINDS_TREE)
 
